@@ -1,4 +1,147 @@
-// placeholder, filled in with the C08 work
+// tracked.hpp -- an element type with observable special members and an observing allocator.
+// These are USER-SUPPLIED types (no hook inside the library): every allocation, deallocation,
+// element construction, assignment and destruction the library performs on them is appended
+// to an ndjson event log, which specs/LifecycleTrace.tla validates (properties C08, C09, C10).
+//
+// Fault injection (C09): when armed, the k-th injection point (allocation, element
+// construction or assignment) throws.
 #ifndef VERIF_TRACKED_HPP
 #define VERIF_TRACKED_HPP
+
+#include <cstddef>
+#include <cstdio>
+#include <map>
+#include <memory>
+#include <new>
+#include <sstream>
+#include <stdexcept>
+#include <string>
+#include <type_traits>
+#include <vector>
+
+namespace verif {
+
+struct injected : std::runtime_error { injected() : std::runtime_error("injected element fault") {} };
+
+struct block_info { long id; long n; std::size_t elem_size; };
+
+struct ledger_t {
+	std::ostringstream log;               // the event log of the current history
+	std::map<char const*, block_info> blocks;  // live blocks by base address
+	std::map<void const*, long> stack;    // live tracked objects outside any block
+	long next_blk = 0;
+	long next_stack = 0;
+	bool armed = false;                   // injection points count only while a library operation runs
+	long countdown = -1;                  // < 0: no fault; == 0 at an injection point: throw
+	long points = 0;                      // injection points seen while armed
+	bool quiet = false;                   // suppress element events of harness-made temporaries? (kept: they are validated too)
+
+	void reset() {
+		log.str(""); log.clear();
+		blocks.clear(); stack.clear();
+		next_blk = 0; next_stack = 0; armed = false; countdown = -1; points = 0;
+	}
+	// (block id, index) of an address, or (-1, stack id)
+	std::pair<long, long> locate(void const* p, bool creating) {
+		auto const* c = static_cast<char const*>(p);
+		auto it = blocks.upper_bound(c);
+		if(it != blocks.begin()) {
+			--it;
+			auto const& b = it->second;
+			if(c >= it->first && c < it->first + b.n * static_cast<long>(b.elem_size)) {
+				return {b.id, static_cast<long>((c - it->first) / static_cast<long>(b.elem_size))};
+			}
+		}
+		auto st = stack.find(p);
+		if(st != stack.end()) { return {-1, st->second}; }
+		if(creating) { long id = next_stack++; stack[p] = id; return {-1, id}; }
+		return {-1, -1};  // not a live object we know of
+	}
+	void forget_stack(void const* p) { stack.erase(p); }
+	bool hit() {  // an injection point; returns true when it must throw
+		if(!armed) { return false; }
+		++points;
+		if(countdown < 0) { return false; }
+		if(countdown == 0) { countdown = -1; return true; }
+		--countdown;
+		return false;
+	}
+};
+
+inline ledger_t& ledger() { static ledger_t l; return l; }
+
+class tracked {
+	int v_ = 0;
+	static void ev(char const* what, char const* how, void const* self, void const* src, bool creating) {
+		auto& L = ledger();
+		auto me = L.locate(self, creating);
+		L.log << "{\"e\":\"" << what << "\",\"how\":\"" << how << "\",\"blk\":" << me.first << ",\"i\":" << me.second;
+		if(src != nullptr) { auto s = L.locate(src, false); L.log << ",\"sblk\":" << s.first << ",\"si\":" << s.second; }
+		else { L.log << ",\"sblk\":-2,\"si\":-2"; }
+		L.log << "}\n";
+	}
+
+ public:
+	tracked() { if(ledger().hit()) { throw injected{}; } ev("Ctor", "default", this, nullptr, true); }
+	explicit tracked(int v) : v_{v} { ev("Ctor", "value", this, nullptr, true); }
+	tracked(tracked const& o) : v_{o.v_} { if(ledger().hit()) { throw injected{}; } ev("Ctor", "copy", this, &o, true); }
+	tracked(tracked&& o) noexcept(false) : v_{o.v_} { if(ledger().hit()) { throw injected{}; } ev("Ctor", "move", this, &o, true); o.v_ = -2; }
+	auto operator=(tracked const& o) -> tracked& { if(ledger().hit()) { throw injected{}; } ev("Assign", "copy", this, &o, false); v_ = o.v_; return *this; }
+	auto operator=(tracked&& o) noexcept(false) -> tracked& { if(ledger().hit()) { throw injected{}; } ev("Assign", "move", this, &o, false); v_ = o.v_; if(&o != this) { o.v_ = -2; } return *this; }
+	~tracked() { ev("Dtor", "-", this, nullptr, false); ledger().forget_stack(this); }
+	int value() const { return v_; }
+	friend bool operator==(tracked const& a, tracked const& b) { return a.v_ == b.v_; }
+	friend bool operator!=(tracked const& a, tracked const& b) { return a.v_ != b.v_; }
+	friend bool operator<(tracked const& a, tracked const& b) { return a.v_ < b.v_; }
+};
+
+// allocator traits are template parameters so that C10 can instantiate the whole lattice
+template<class U, bool POCCA = false, bool POCMA = false, bool POCS = false, bool AlwaysEqual = false>
+struct ledger_allocator {
+	using value_type = U;
+	using propagate_on_container_copy_assignment = std::integral_constant<bool, POCCA>;
+	using propagate_on_container_move_assignment = std::integral_constant<bool, POCMA>;
+	using propagate_on_container_swap = std::integral_constant<bool, POCS>;
+	using is_always_equal = std::integral_constant<bool, AlwaysEqual>;
+	template<class V> struct rebind { using other = ledger_allocator<V, POCCA, POCMA, POCS, AlwaysEqual>; };
+
+	int id = 0;    // instance identity (for reporting)
+	int cls = 0;   // equality class: instances compare equal iff same class (or AlwaysEqual)
+
+	ledger_allocator() = default;
+	ledger_allocator(int id_, int cls_) : id{id_}, cls{cls_} {}
+	template<class V> ledger_allocator(ledger_allocator<V, POCCA, POCMA, POCS, AlwaysEqual> const& o) noexcept : id{o.id}, cls{o.cls} {}  // NOLINT
+
+	// copy construction of a container goes through this; instances of class c select class c (id + 100 marks "selected")
+	ledger_allocator select_on_container_copy_construction() const { return ledger_allocator{id + 100, cls}; }
+
+	U* allocate(std::size_t n) {
+		auto& L = ledger();
+		if(L.hit()) { throw std::bad_alloc{}; }
+		U* p = std::allocator<U>{}.allocate(n);
+		long blk = L.next_blk++;
+		L.blocks[reinterpret_cast<char const*>(p)] = block_info{blk, static_cast<long>(n), sizeof(U)};
+		L.log << "{\"e\":\"Alloc\",\"how\":\"-\",\"blk\":" << blk << ",\"i\":" << n << ",\"sblk\":" << id << ",\"si\":" << cls << "}\n";
+		return p;
+	}
+	void deallocate(U* p, std::size_t n) noexcept {
+		auto& L = ledger();
+		auto it = L.blocks.find(reinterpret_cast<char const*>(p));
+		long blk = it == L.blocks.end() ? -1 : it->second.id;
+		L.log << "{\"e\":\"Dealloc\",\"how\":\"-\",\"blk\":" << blk << ",\"i\":" << n << ",\"sblk\":" << id << ",\"si\":" << cls << "}\n";
+		if(it != L.blocks.end()) { L.blocks.erase(it); std::allocator<U>{}.deallocate(p, n); }
+		// an unknown pointer is reported (blk -1) and not passed on to the real allocator
+	}
+	friend bool operator==(ledger_allocator const& a, ledger_allocator const& b) noexcept { return AlwaysEqual || a.cls == b.cls; }
+	friend bool operator!=(ledger_allocator const& a, ledger_allocator const& b) noexcept { return !(a == b); }
+};
+
+// block id owning a data pointer (or -1), for OpEnd handle records
+inline long block_of(void const* p) {
+	auto& L = ledger();
+	auto it = L.blocks.find(static_cast<char const*>(p));
+	return it == L.blocks.end() ? -1 : it->second.id;
+}
+
+}  // namespace verif
 #endif
